@@ -459,6 +459,41 @@ func c16r5(w *World, rr *RuleRun) {
 		meth := w.TS.Of(c.Args[3])
 		rr.At(w, site, "the announce is sent as announce_peer to the node parameter", termEq(node, w.ParamTerm(sap, "node")) && meth.IsConst(`"announce_peer"`), "to "+node.String()+" method "+meth.String())
 	}
+	// the deprecated wrapper Server.Announce(infoHash, port, impliedPort, ...) configures exactly what
+	// it was given: every AnnouncePeerOpts it builds takes Port from its int parameter and
+	// ImpliedPort from its bool parameter
+	if wrap := w.P.FuncOpt("(*Server).Announce"); wrap != nil {
+		optsT := w.P.NamedType("", "AnnouncePeerOpts")
+		var intP, boolP *ssa.Parameter
+		for _, pm := range wrap.Params {
+			if b, ok := pm.Type().Underlying().(*types.Basic); ok {
+				switch {
+				case b.Kind() == types.Int && intP == nil:
+					intP = pm
+				case b.Kind() == types.Bool && boolP == nil:
+					boolP = pm
+				}
+			}
+		}
+		nLit := 0
+		eachInstr(append([]*ssa.Function{wrap}, allAnon(wrap)...), func(_ *ssa.Function, ins ssa.Instruction) {
+			al, ok := ins.(*ssa.Alloc)
+			if !ok || !types.Identical(al.Type().Underlying().(*types.Pointer).Elem(), optsT) {
+				return
+			}
+			fs := allocFieldStores(al)
+			if len(fs) == 0 {
+				return
+			}
+			nLit++
+			okP := intP != nil && fs["Port"] != nil && termEq(w.TS.Of(fs["Port"]), w.TS.Of(intP))
+			okI := boolP != nil && fs["ImpliedPort"] != nil && termEq(w.TS.Of(fs["ImpliedPort"]), w.TS.Of(boolP))
+			rr.At(w, ins, "Server.Announce configures the port and the implied_port flag it was given", okP && okI, fmt.Sprintf("Port from the port parameter: %v, ImpliedPort from the impliedPort parameter: %v", okP, okI))
+		})
+		if nLit == 0 {
+			rr.Oblige(shortFuncName(wrap), "Server.Announce configures the port and the implied_port flag it was given", w.P.Pos(wrap.Pos()), false, "no AnnouncePeerOpts literal")
+		}
+	}
 	// Announce.announcePeer passes its own info-hash and configured options
 	ap := w.P.Func("(*Announce).announcePeer")
 	ihF := w.P.Field("", "Announce", "infoHash")
